@@ -200,7 +200,7 @@ async fn run_probation(rng: &mut Rng, policy: Policy) -> Result<Outcome, String>
     cfg.clean_block_threshold = 1;
     let woi = policy == Policy::WriteOnInsertion;
     let per_block = cfg.block_size / crate::hyb::PAGE - 1;
-    let n = cfg.blocks * per_block + 6 + rng.usize(4 * per_block);
+    let n = cfg.blocks * per_block + 6 + rng.usize(cfg.blocks * per_block);
     let mut ex = Exec::new(cfg.clone()).await.map_err(|e| format!("open: {e}"))?;
     let mut problems = vec![];
     let mut classes: BTreeMap<String, u64> = BTreeMap::new();
@@ -228,6 +228,15 @@ async fn run_probation(rng: &mut Rng, policy: Policy) -> Result<Outcome, String>
         }
     }
     *classes.entry(format!("probation_keys_seen:{}", if woi { "woi" } else { "woe" })).or_insert(0) += old.len() as u64;
+    // only the blocks the default FIFO picker has marked for imminent reclaim (a tenth of the device) may report their entries
+    // as loaded from a block on probation; a block that was reclaimed and reused starts a new life without the mark
+    let probation_blocks = (cfg.blocks as f64 * 0.1).floor() as usize;
+    if old.len() > probation_blocks * per_block {
+        problems.push((
+            format!("too-many-entries-loaded-as-about-to-be-reclaimed:{}", if woi { "woi" } else { "woe" }),
+            format!("{} keys load with the imminent-reclaim mark (e.g. {:?}) on a device of {} blocks x {} entries where at most {} blocks can be marked", old.len(), &old[..old.len().min(6)], cfg.blocks, per_block, probation_blocks),
+        ));
+    }
     let mut total_new = 0usize;
     let picks: Vec<(u64, bool)> = old.iter().take(4).map(|k| (*k, true)).chain(young.iter().rev().take(3).map(|k| (*k, false))).collect();
     let mut seen_seqs = disk_sequences(&cfg, &ex.dir.0);
